@@ -35,6 +35,7 @@ pub const TABLE: &[(&str, &str, &str)] = &[
      "point first displaced (SHPIX) so that cur != org; cvt := GC[0]p +- (cutin + k)"),
     ("mdrp", "single_width_value/cutin, minimum_distance, round_state; all 32 flag combinations; zones",
      "swci := |MD[1] - sw| + k; SMD := ROUND(MD[1]) + k resp. |MD[1]| + k; distances of both signs and 0"),
+    ("mdap", "round_state on the current projection, zp0 (not zp1/zp2); flag a", "positions set with SCFS on rounding boundaries +-1 in both signs; glyph and twilight zone with the other zone pointers elsewhere"),
     ("msirp", "zp1 twilight re-seat, rp0 flag", "distances 0, +-1, +-32, +-64, +-65 glyph/twilight"),
     ("delta", "ppem == delta_base + 16*range + rel, delta_shift, magnitude nibble, backward-compatibility touch test",
      "SDB := MPPEM - r so that rel r fires at every size; rel r-1, r, r+1; all 16 magnitudes; SDS 0..6; DELTAP1-3/DELTAC1-3; touched / untouched / after IUP"),
@@ -733,6 +734,44 @@ fn mdrp(thorough: bool) -> Vec<EdgeGlyph> {
     out
 }
 
+/// MDAP[a]: rounding of the current position, zone pointer zp0 (with zp1/zp2 pointing elsewhere).
+fn mdap(_thorough: bool) -> Vec<EdgeGlyph> {
+    let mut out = vec![];
+    let vals = [0, 1, -1, 15, 16, 17, 31, 32, 33, 47, 48, 49, 63, 64, 65, 95, 96, 97, -31, -32, -33, -63, -64, -65, 1000];
+    let n = vals.len();
+    let pts: Vec<(i16, i16, bool)> = (0..n as i16).map(|i| (30 * i, 7 * i - 40, true)).collect();
+    let ends = vec![n - 1];
+    for a in 0..2u8 {
+        for ri in 0..ROUND_OPS.len() {
+            for z0 in [1, 0] {
+                let mut p = P::new();
+                init_twilight(&mut p);
+                let rname = round_op(&mut p, ri);
+                for axis_x in [false, true] {
+                    p.svtca(axis_x);
+                    for (i, &v) in vals.iter().enumerate() {
+                        let i = i as i32;
+                        if z0 == 1 {
+                            p.push(&[i, v]).op(SCFS);
+                            // the other zone pointers look at the twilight zone
+                            p.set(SZP1, 0).set(SZP2, 0);
+                            p.push(&[i]).op(MDAP + a);
+                            p.set(SZP1, 1).set(SZP2, 1);
+                        } else {
+                            let t = i % 8;
+                            p.set(SZP2, 0).push(&[t, v + 3 * i]).op(SCFS).set(SZP2, 1);
+                            p.set(SZP0, 0).push(&[t]).op(MDAP + a).set(SZP0, 1);
+                            p.observe_twilight(t, i);
+                        }
+                    }
+                }
+                out.push(EdgeGlyph { label: format!("mdap a={a} round={rname} zp0={z0}"), pts: pts.clone(), ends: ends.clone(), code: p.c });
+            }
+        }
+    }
+    out
+}
+
 fn msirp(_thorough: bool) -> Vec<EdgeGlyph> {
     let mut out = vec![];
     let dvals = [0, 1, -1, 32, -32, 64, -64, 65, -65, 1000];
@@ -911,7 +950,7 @@ fn ip(_thorough: bool) -> Vec<EdgeGlyph> {
         }
         let ends = vec![pts.len() - 1];
         for (m1, m2) in [(0, 0), (64, 64), (37, -21), (-100, 130), (0, 77), (300, -300)] {
-            for tw in 0..3 {
+            for tw in 0..4 {
                 for axis_x in [false, true] {
                     let mut p = P::new();
                     init_twilight(&mut p);
@@ -919,6 +958,16 @@ fn ip(_thorough: bool) -> Vec<EdgeGlyph> {
                     // displace the references
                     p.push(&[0, m1]).op(SHPIX).push(&[1, m2]).op(SHPIX);
                     match tw {
+                        3 => {
+                            // references in the glyph zone, the interpolated points in the twilight zone (zp2 only)
+                            p.set(SRP1, 0).set(SRP2, 1).set(SZP2, 0);
+                            p.push(&[8]).op(SLOOP);
+                            p.push(&[3, 4, 5, 6, 7, 8, 9, 10]).op(IP);
+                            p.set(SZP2, 1);
+                            for t in 3..11 {
+                                p.observe_twilight(t, t);
+                            }
+                        }
                         0 => {
                             p.set(SRP1, 0).set(SRP2, 1);
                             let n = cands.len() as i32;
@@ -1042,6 +1091,11 @@ fn shift(_thorough: bool) -> Vec<EdgeGlyph> {
                             }
                             2 => {
                                 p.push(&[if tw == 2 { 0 } else { 1 }]).op(SHZ + a);
+                                // SHZ does not touch the points it moves: a following IUP (with one really
+                                // touched point per contour) re-interpolates them
+                                if tw != 2 && axis_x {
+                                    p.push(&[2]).op(MDAP).push(&[4]).op(MDAP).op(IUP_X).op(IUP_Y);
+                                }
                             }
                             _ => {
                                 // SHPIX on touched / untouched points, before and after IUP
@@ -1120,24 +1174,32 @@ fn align(_thorough: bool) -> Vec<EdgeGlyph> {
 
 fn isect(_thorough: bool) -> Vec<EdgeGlyph> {
     let mut out = vec![];
-    // line A: (0,0)-(1000,0) rotated; line B through (500, 200) with slope dy/1000
-    for (ax1, ay1) in [(1000i16, 0i16), (1000, 300), (0, 1000), (0, 0)] {
+    // line A from the origin; line B from (20,200) with direction (dx,dy).  With A = (1024,0) at scale 1
+    // (16 ppem) the products are exact: 19*|dy| = |dx| is the parallel threshold itself
+    for (ax1, ay1) in [(1000i16, 0i16), (1024, 0), (0, 1024), (1000, 300), (0, 1000), (0, 0)] {
         let mut pts: Vec<(i16, i16, bool)> = vec![(0, 0, true), (ax1, ay1, true)];
-        let slopes: Vec<i16> = vec![0, 1, 10, 30, 45, 50, 51, 52, 53, 54, 55, 60, 80, 150, 1000, -52, -53, -1000];
-        for &s in &slopes {
+        let mut dirs: Vec<(i16, i16)> = vec![(1000, 0), (1000, 1), (1000, 10), (1000, 30), (1000, 45), (1000, 150), (1000, 1000), (1000, -1000)];
+        for s in 49..=56 {
+            dirs.push((1000, s));
+            dirs.push((1000, -s));
+        }
+        for (dx, dy) in [(950, 50), (949, 50), (951, 50), (19, 1), (190, 10), (-950, 50), (950, -50), (50, 950), (50, 949), (50, 951), (-50, 950), (0, 500), (0, 0)] {
+            dirs.push((dx, dy));
+        }
+        for &(dx, dy) in &dirs {
             pts.push((20, 200, true));
-            pts.push((1020, 200 + s, true));
+            pts.push((20 + dx, 200 + dy, true));
             pts.push((333, 777, true)); // the point to move
         }
         let ends = vec![pts.len() - 1];
         let mut p = P::new();
-        for i in 0..slopes.len() as i32 {
+        for i in 0..dirs.len() as i32 {
             p.push(&[4 + 3 * i, 0, 1, 2 + 3 * i, 3 + 3 * i]).op(ISECT);
         }
         out.push(EdgeGlyph { label: format!("isect lineA=(0,0)-({ax1},{ay1})"), pts: pts.clone(), ends: ends.clone(), code: p.c.clone() });
         // the same with line roles swapped
         let mut p = P::new();
-        for i in 0..slopes.len() as i32 {
+        for i in 0..dirs.len() as i32 {
             p.push(&[4 + 3 * i, 2 + 3 * i, 3 + 3 * i, 0, 1]).op(ISECT);
         }
         out.push(EdgeGlyph { label: format!("isect swapped lineA=(0,0)-({ax1},{ay1})"), pts, ends, code: p.c });
@@ -1223,6 +1285,21 @@ fn flip(_thorough: bool) -> Vec<EdgeGlyph> {
         let mut p = P::new();
         p.push(&[2]).op(SLOOP).push(&[lo, hi]).op(FLIPPT).push(&[lo]).op(FLIPPT);
         out.push(EdgeGlyph { label: format!("flippt ({lo},{hi})"), pts: pts.clone(), ends: ends.clone(), code: p.c });
+        // after IUP on both axes flips are ignored in backward compatibility mode; after one they are not
+        for iups in 1..4 {
+            let mut p = P::new();
+            if iups & 1 != 0 {
+                p.op(IUP_X);
+            }
+            if iups & 2 != 0 {
+                p.op(IUP_Y);
+            }
+            p.push(&[2]).op(SLOOP).push(&[lo, hi]).op(FLIPPT);
+            if lo <= hi {
+                p.push(&[lo, hi]).op(if iups == 2 { FLIPRGOFF } else { FLIPRGON });
+            }
+            out.push(EdgeGlyph { label: format!("flip after iup={iups} ({lo},{hi})"), pts: pts.clone(), ends: ends.clone(), code: p.c });
+        }
     }
     out
 }
@@ -1376,6 +1453,7 @@ pub fn fonts(thorough: bool) -> Vec<EdgeFont> {
     add("mirp-zones", mirp_zones(thorough));
     add("miap", miap(thorough));
     add("mdrp", mdrp(thorough));
+    add("mdap", mdap(thorough));
     add("msirp", msirp(thorough));
     add("delta", delta(thorough));
     add("round", round_family(thorough));
@@ -1424,7 +1502,7 @@ pub fn run(cfg: &Config, s: &mut Session) {
         v.extend([48, 64, 100]);
         v
     } else {
-        let mut v = vec![16u32, 11 + rng.below(5) as u32, 17 + rng.below(14) as u32];
+        let mut v = vec![16u32, 8 + rng.below(8) as u32, 17 + rng.below(8) as u32, 25 + rng.below(16) as u32];
         v.sort();
         v.dedup();
         v
